@@ -89,8 +89,13 @@ func DeriveWallet(entropy []byte, pass string) (k *WalletKeys, ok bool) {
 }
 
 // Addr derives external address i (nil if the index is an invalid child, probability ~2^-127).
-func (k *WalletKeys) Addr(i uint32) *AddrKeys {
-	c, err := k.External.Child(i)
+func (k *WalletKeys) Addr(i uint32) *AddrKeys { return k.addrAt(k.External, i) }
+
+// AddrInternal derives address i of the internal (change) branch m/44'/coin'/1'/1/i.
+func (k *WalletKeys) AddrInternal(i uint32) *AddrKeys { return k.addrAt(k.Internal, i) }
+
+func (k *WalletKeys) addrAt(branch *ref.XKey, i uint32) *AddrKeys {
+	c, err := branch.Child(i)
 	if err != nil {
 		return nil
 	}
